@@ -318,7 +318,6 @@ func renderRule(c *Check, t *Tracker, fn *ssa.Function) {
 	c.Cond(nsub >= 1, "render-from-own-login", "renderer "+fn.Name()+": subjects copied", p.InstrPos(ret), "subjects map filled from the login", "the UserAction's subjects are not filled from the bound login")
 }
 
-
 // finderJustified: see form A (finder) in checkC01.
 func finderJustified(p *Prog, b TFact) (bool, string) {
 	u := b.U
@@ -408,7 +407,6 @@ func finderJustified(p *Prog, b TFact) (bool, string) {
 	}
 	return true, "the object is result #" + fmt.Sprint(u.Idx) + " of " + sc.Name() + ", assigned only on the true edge of v.srcPID == pid with pid bound to this login's PID; the bind is conditional on that call's result"
 }
-
 
 // loginDeliveredAsReceived: between the logins channel and the tracker the
 // login is not touched: the value given to RemoteLogin is the value received
